@@ -37,7 +37,7 @@ CLAIMED.update({
         "due delivery for (message, subscription); the pull candidate query returns every open, unexpired, due (and, when ordered, unblocked) delivery of the subscription when it returns fewer than MaxMessages; "
         "applyResults hands a candidate out without ever completing or removing it (it stays open with a later lease); PruneCompletedDeliveries never removes an open delivery; the pull action's "
         "single-transaction entry point (verifySub -> query -> applyResults, in a retry loop) is proved to establish each step's precondition from the previous step's postcondition; the Publish handler returns, per request message and in order, the id of a newly stored message carrying exactly that message's payload, attributes and ordering key on the named live topic.",
-   note="Whole-history/liveness part (a pull eventually happens, streaming pull loops) is not under contract; the multi-transaction wrapper ExecuteClient is a trusted summary; concurrency between transactions is not explored (the SQL engine's isolation is assumed: one Execute = one atomic step). "+TRUST,
+   note="Whole-history/liveness part (a pull eventually happens, streaming pull loops) is not under contract; the multi-transaction wrapper ExecuteClient is used through a trusted summary by the handlers (its body is verified separately with an assumed transaction runner); concurrency between transactions is not explored (the SQL engine's isolation is assumed: one Execute = one atomic step). "+TRUST,
    design="4/C01"),
  "C02": dict(
    text="Deductive proof that the pull candidate query (queryAndLockDeliveriesOnce) returns only open, unexpired, due deliveries of exactly the pulled subscription, at most MaxMessages of them, pairwise distinct, "
@@ -57,8 +57,9 @@ CLAIMED.update({
         "(float64 as reals, math.Pow axiomatised); of applyResults: a delivery handed out as attempt old+1 gets attempts = old+1 and attempt_at = now + that back-off for old+1 (+ jitter < 1 s), stays open, nothing else about it changes, and the "
         "reported attempt number is old+1; of NackDeliveries.Execute: every listed outstanding delivery is rescheduled by the back-off for its attempt count (or dead-lettered when its attempts are used up), nothing else changes; "
         "of DelayDeliveries.Execute: a positive delay can only move attempt_at later, zero/negative sets it to now; of adaptIn: a streaming modify-deadline applies the largest requested deadline to exactly the listed ids. "
-        "The pull query contract (C02) gives 'not handed out before attempt_at'.",
-   note="Exclusivity between concurrent pullers (row locks, SKIP LOCKED) is outside this technique: schedules are not explored. Retry policies are bounded by 100 days (policy_domain precondition) so that Duration arithmetic cannot overflow. "+TRUST,
+        "The pull query contract (C02) gives 'not handed out before attempt_at'. The pull action's body is also verified with every step in a transaction of its own (the way ExecuteClient runs it, the runner being an assumed parameter contract): "
+        "the lease is taken in the very transaction that selected and locked the candidates (ghost transaction counter; precondition same_transaction of applyResults).",
+   note="Exclusivity between concurrent pullers is reduced to 'select, lock and lease happen in one transaction'; that the SQL engine then excludes a second puller (row locks, SKIP LOCKED, SQLite serialisation) is assumed: schedules are not explored. Retry policies are bounded by 100 days (policy_domain precondition) so that Duration arithmetic cannot overflow. "+TRUST,
    design="4/C04"),
  "C05": dict(
    text="Deductive proof that deliverToSubscription, for an ordered subscription and a keyed message, links the new delivery behind the latest unexpired delivery of the same subscription whose message has the same ordering key "
@@ -100,7 +101,8 @@ CLAIMED.update({
  "C14": dict(
    text="Deductive proof that subscription expiry follows the stored ttl: CreateSubscription stamps expires_at = now + ttl, deliverToSubscription computes delivery expiry from the subscription's message ttl, applyResults (every successful pull) pushes expires_at to now + ttl, "
         "and DeleteExpiredSubscriptions soft-deletes exactly the live subscriptions whose expires_at has passed (and none other), waking their waiters.",
-   note="The extra refresh in the pull action's first transaction (which matters only when a pull is cancelled before it returns) is not covered by a postcondition. "+TRUST,
+        " The pull action's body run with one transaction per step (as ExecuteClient does) restarts the clock in a committed transaction for every pull that finds its subscription, however the pull ends (cancelled, timed out, empty or not): postcondition pull_restarts_clock.",
+   note="The transaction runner handed to the pull action's body is an assumed contract (runs its argument once in a fresh transaction, rolls back on error or commit failure); DoCtxTxRetry's retry loop itself is not verified. "+TRUST,
    design="4/C14"),
  "C15": dict(
    text="Deductive proof of the six background prune jobs and the expiry sweep: each removes only rows its retention rule allows (completed/expired deliveries older than the cut-off, messages without deliveries, soft-deleted subscriptions/topics older than the cut-off and without dependants), "
